@@ -1,6 +1,7 @@
 """C14 — directives are all kept in order; comments, blanks and FASTA are not features."""
 import itertools
 import os
+import zlib
 import shutil
 import tempfile
 import coqlit as L
@@ -99,6 +100,9 @@ def text_of(c):
     return t
 
 
+DECOY = "##decoy-one\nchrD\tsrc\tgene\t1\t9\t.\t+\t.\tID=d1\n##decoy-two\nchrD\tsrc\tgene\t11\t19\t.\t+\t.\tID=d2\n#c\nchrD\tsrc\tgene\t21\t29\t.\t+\t.\tID=d3\n"
+
+
 def run_impl(c):
     import gffutils
     from gffutils import iterators
@@ -113,10 +117,20 @@ def run_impl(c):
             with open(data, "w", newline="") as fh:
                 fh.write(text)
             kw = {}
+        # every third case: a second iterator over another annotation is alive and advancing while this one is read, and
+        # create_db's transform reads that other annotation too - the directives of an input are its own
+        busy = zlib.crc32(text.encode("utf-8", "surrogatepass")) % 3 == 0
         try:
+            decoy = iter(iterators.DataIterator(DECOY, from_string=True)) if busy else None
             it = iterators.DataIterator(data, checklines=c["checklines"], **kw)
             out["peek_dirs"] = ["ok", list(it.directives)]
-            feats = [str(f) for f in it]
+            feats = []
+            for f in it:
+                feats.append(str(f))
+                if decoy is not None:
+                    next(decoy, None)
+            if decoy is not None:
+                list(decoy)
             out["iter_feats"] = ["ok", feats]
             out["iter_dirs"] = ["ok", list(it.directives)]
         except Exception as ex:
@@ -126,9 +140,22 @@ def run_impl(c):
             out.setdefault("iter_dirs", e)
         dbfn = os.path.join(d, "out.db")
         try:
-            db = gffutils.create_db(data, dbfn, checklines=c["checklines"], **kw)
+            seen = []
+            def look_aside(f):
+                if not seen:
+                    seen.append(len(list(iterators.DataIterator(DECOY, from_string=True))))
+                return f
+            db = gffutils.create_db(data, dbfn, checklines=c["checklines"], transform=look_aside if busy else None, **kw)
             out["db_dirs"] = ["ok", list(db.directives)]
             out["db_count"] = ["ok", db.count_features_of_type()]
+            # an update that is refused (the first stored feature once more, merge_strategy='error') leaves the directives alone
+            first = next(iter(db.all_features()), None)
+            if first is not None:
+                try:
+                    db.update([first], merge_strategy="error", make_backup=False)
+                    out["db_count"] = ["err", "Other"]          # a duplicate key must be refused
+                except ValueError:
+                    pass
             del db
             db2 = gffutils.FeatureDB(dbfn)
             out["reopened_dirs"] = ["ok", list(db2.directives)]
